@@ -8,6 +8,9 @@ sys.path.insert(0, os.path.dirname(os.path.abspath(__file__)))
 from selftest import make_copy, VERIF
 
 
+FAST = False
+
+
 def run(patch, props):
     d = make_copy()
     try:
@@ -16,6 +19,10 @@ def run(patch, props):
             return patch, None, "PATCH DOES NOT APPLY: " + (r.stdout + r.stderr)[-300:]
         env = dict(os.environ, NNG_REPO=d, VERIF_EVIDENCE=os.path.join(d, "_evidence"))
         hits, lines = [], []
+        if FAST:     # one process for all properties; only those it cannot clear go to the real check
+            c = subprocess.run([sys.executable, os.path.join(VERIF, "tools", "fastall.py"), ",".join(props)], capture_output=True, text=True, env=env, cwd=VERIF)
+            sus = [x for x in c.stdout.splitlines() if x.startswith("SUSPICIOUS")]
+            props = [q for q in sus[-1].split(" ", 1)[1].split(",") if q] if sus else props
         for p in props:
             c = subprocess.run([os.path.join(VERIF, "check"), p], capture_output=True, text=True, env=env, cwd=VERIF)
             if c.returncode != 0:
@@ -30,8 +37,11 @@ def main():
     ap = argparse.ArgumentParser()
     ap.add_argument("-p", default="")
     ap.add_argument("-j", type=int, default=3)
+    ap.add_argument("--fast", action="store_true")
     ap.add_argument("patches", nargs="+")
     a = ap.parse_args()
+    global FAST
+    FAST = a.fast
     props = a.p.split(",") if a.p else [c["property_id"] for c in json.load(open(os.path.join(VERIF, "MANIFEST.json")))["checks"]]
     with ThreadPoolExecutor(a.j) as ex:
         for patch, hits, text in ex.map(lambda x: run(x, props), a.patches):
